@@ -37,6 +37,32 @@ pub enum TOp {
     MemoryGrow,
     /// call of the helper function (i32) -> i32
     CallHelper,
+    /// bulk operators with two entity operands each (environment: memories 0 and 1, tables 0 and 1, one passive data
+    /// segment, one passive element segment); operands of the copy variants are (source, destination)
+    MemoryCopy { src: usize, dst: usize },
+    TableCopy { src: usize, dst: usize },
+    MemoryInit { mem: usize },
+    DataDrop,
+    TableInit { table: usize },
+    ElemDrop,
+    MemoryFill { mem: usize },
+    /// -> i32
+    TableSize { table: usize },
+}
+
+impl TOp {
+    pub fn is_bulk(&self) -> bool {
+        matches!(self, TOp::MemoryCopy { .. } | TOp::TableCopy { .. } | TOp::MemoryInit { .. } | TOp::DataDrop | TOp::TableInit { .. } | TOp::ElemDrop | TOp::MemoryFill { .. } | TOp::TableSize { .. })
+    }
+}
+
+/// Does the tree use the bulk environment (second memory, tables, passive segments)?
+pub fn uses_bulk(nodes: &[TNode]) -> bool {
+    nodes.iter().any(|n| match n {
+        TNode::Op(op) => op.is_bulk(),
+        TNode::Block { body, .. } | TNode::Loop { body, .. } => uses_bulk(body),
+        TNode::If { then_, else_, .. } => uses_bulk(then_) || uses_bulk(else_),
+    })
 }
 
 #[derive(Clone, Debug, PartialEq)]
@@ -277,6 +303,25 @@ impl<'a> G<'a> {
                 self.expr(ENV_GLOBALS[g], depth + 1, out);
                 out.push(TNode::Op(TOp::GlobalSet(g)));
             }
+            3 if self.multivalue && self.rng.chance(1, 3) => {
+                // a bulk operator with its (small constant) operands
+                let (a, b) = (self.rng.usize(2), self.rng.usize(2));
+                let op = match self.rng.below(8) {
+                    0 => TOp::MemoryCopy { src: a, dst: b },
+                    1 | 2 => TOp::TableCopy { src: a, dst: b },
+                    3 => TOp::MemoryInit { mem: a },
+                    4 => TOp::TableInit { table: a },
+                    5 => TOp::MemoryFill { mem: a },
+                    6 => TOp::DataDrop,
+                    _ => TOp::ElemDrop,
+                };
+                if !matches!(op, TOp::DataDrop | TOp::ElemDrop) {
+                    for _ in 0..3 {
+                        out.push(TNode::Op(TOp::I32Const(self.rng.below(3) as i32)));
+                    }
+                }
+                out.push(TNode::Op(op));
+            }
             3 => {
                 self.expr(VT::I32, depth + 1, out);
                 self.expr(VT::I32, depth + 1, out);
@@ -476,6 +521,14 @@ pub fn flatten(f: &TFunc) -> Vec<Flat> {
                     TOp::MemorySize => Flat::Plain("MemorySize mem=0".into()),
                     TOp::MemoryGrow => Flat::Plain("MemoryGrow mem=0".into()),
                     TOp::CallHelper => Flat::Plain("Call helper".into()),
+                    TOp::MemoryCopy { src, dst } => Flat::Plain(format!("MemoryCopy dst_mem={} src_mem={}", dst, src)),
+                    TOp::TableCopy { src, dst } => Flat::Plain(format!("TableCopy dst_table={} src_table={}", dst, src)),
+                    TOp::MemoryInit { mem } => Flat::Plain(format!("MemoryInit data_index=0 mem={}", mem)),
+                    TOp::DataDrop => Flat::Plain("DataDrop data_index=0".into()),
+                    TOp::TableInit { table } => Flat::Plain(format!("TableInit elem_index=0 table={}", table)),
+                    TOp::ElemDrop => Flat::Plain("ElemDrop elem_index=0".into()),
+                    TOp::MemoryFill { mem } => Flat::Plain(format!("MemoryFill mem={}", mem)),
+                    TOp::TableSize { table } => Flat::Plain(format!("TableSize table={}", table)),
                 }),
                 TNode::Block { id, params, results, body } => {
                     out.push(Flat::Start("Block", params.clone(), results.clone()));
